@@ -1,7 +1,13 @@
 (* C12 — the websocket shim answers every call and survives any call order.  Statements only. *)
-From Coq Require Import List Arith Bool.
+From Coq Require Import String List Arith Bool.
 From IP Require Import Gen.SrcFacts_Websockets Websockets.Shim Proofs.ShimProofs Websockets.ShimTable Proofs.ShimTableProofs.
 Import ListNotations.
+
+(* sessions share the connection table of their shim (Websockets/ShimTable.v) and nothing else: the package-level
+   variables are a template, a table of header names and a path, all read-only after start-up *)
+Theorem C12_sessions_share_nothing_else : shimPackageVars = ["shimTmpl"; "stripHeaderNames"; "websocketShimInjectedHeadersPath"]%string.
+Proof. reflexivity. Qed.
+Print Assumptions C12_sessions_share_nothing_else.
 
 (* Any number of close and data calls racing on one session, the writer goroutine and the
    backend doing what they want, any queue capacity, any interleaving of their atomic
